@@ -13,6 +13,43 @@ CLAIMED = {
    note="Trusted: Go's arithmetic/strconv/fmt as reference; the reading of the statement for operand kinds it names. Not judged: operands the statement is silent on (bool/nil operands, float operands of % & | << >>, n*string)."),
 }
 NOT_YET = {}
+CLAIMED.update({
+ "C03": dict(
+   cat="exploration", ref="DESIGN.md section 3, C03",
+   technique="runtime metamorphic monitor over parser output: minimal vs fully parenthesised spellings of generated expression trees must parse to the same tree (reflection dump) and evaluate to the same value; literal spellings compared bit-for-bit with the Go value",
+   text="Every ordered pair and triple of the table's binary/ternary operators plus all unary/postfix neighbourhoods are enumerated completely on every run; random trees to depth 6/8 are embedded in 14 statement positions; each tree is spelled four ways, each parse is converted back to the IR and compared with the tree, and min/full spellings are executed in equal environments. Literals: every documented spelling against the Go value, out-of-range spellings must be *parser.Error.",
+   note="Trusted: the printers' reading of the operator table in the statement; astx reflection dump. Not judged: `<-`, chained `in`, ++/--/op=, binary ^, escapes the lexer does not define."),
+ "C04": dict(
+   cat="exploration", ref="DESIGN.md sections 2.1 and 3, C04",
+   technique="offline checker of recorded probe traces against an executable reference model (lexical scope interpreter written from the statement), over PRNG-generated programs with read-back probes after every statement",
+   text="Generated terminating programs (scope profile) run on the real interpreter with host probes that read back a 4-name pool after statements at every nesting level and on every exit path; the recorded trace, result and error status must be admitted by one of the reference model's variants (readings the statement leaves open). A scope not restored on one exit path shows as a wrong read-back.",
+   note="Trusted: internal/refmodel as the reading of the statement (parent-linked scopes, nearest-binding assignment, fresh scope per invocation, capture by reference). Programs outside the determined domain are excluded and counted."),
+ "C06": dict(
+   cat="exploration", ref="DESIGN.md section 3, C06",
+   technique="runtime law monitor: for every ordered pair of a 163-value pool the observed results of ==, !=, in, switch (both operand orders, several provenances) are checked against the algebraic laws and reference rules of the statement",
+   text="All 26569 ordered pairs of the pool (nil, bools, boundary ints and floats incl. 1e5/1e6/2^53 edges, +-0, inf, NaN, numeral strings in integer/fraction/exponent spelling, non-numerals, nested slices and maps) are enumerated completely each run, each observed through ==, !=, in, switch in both orders and with operands supplied as literals, variables and container elements; thorough adds 1M random pairs.",
+   note="Trusted: Go's == on same-type primitives, anko's own observed <=/>= as the int/float reference (as the statement says), strconv for decimal numerals. Bool-vs-other coercions, non-decimal numerals and rounding-only equalities are unspecified: only symmetry/negation/in/switch consistency is checked for them."),
+ "C08": dict(
+   cat="exploration", ref="DESIGN.md sections 2.1 and 3, C08",
+   technique="offline checker of recorded probe traces against an executable reference model (structured control flow), over PRNG-generated nestings of branch and loop forms with break/continue/return at every position",
+   text="Generated terminating programs (control profile: if/else-if/else, switch with multi-expression cases and default anywhere, three loop forms with probing conditions and post expressions, for-in over lists and maps, break/continue/return placed everywhere, all truthiness classes as conditions) run on the real interpreter; trace, result and error status must be admitted by a model variant. Runaway executions are decided on an event budget / CPU time, never on the wall clock.",
+   note="Trusted: internal/refmodel. The known finding (control statements inside a try body are caught) is matched by a model finding flag so other deviations in the same programs still fail. Strings such as \"false\"/\"0\" as conditions are excluded."),
+ "C09": dict(
+   cat="exploration", ref="DESIGN.md sections 2.1 and 3, C09",
+   technique="offline checker of recorded probe traces against an executable reference model (error propagation to the nearest try, per-invocation LIFO defer list), over PRNG-generated try/catch/finally/defer programs",
+   text="Generated programs (error profile: nested try/catch/finally in nested functions, 0-5 defers per invocation in branches and loops, deferred host functions/closures/variadic and spread callees, failing deferred callees, throw/runtime error/return at every point) run on the real interpreter; every deferred call is observed with the arguments it received; trace, result and error class must be admitted by a model variant.",
+   note="Trusted: internal/refmodel. Open readings accepted both ways: try/catch/finally scope sharing, finally after abrupt exits, which of several failing defers surfaces. Runtime error texts are opaque (only occurrence and position)."),
+ "C12": dict(
+   cat="exploration", ref="DESIGN.md section 3, C12",
+   technique="history + executable model: every env API call of generated and exhaustively enumerated histories is applied to the real package and to a chain-of-dictionaries model; results and the complete observable state of every live scope are compared after every call",
+   text="All operation sequences of length 4 (5 in thorough) over a 22-op value alphabet and a 15-op type alphabet are enumerated completely; random histories of 40-200 calls over all 26 API entry points on a forest of up to 12 scopes with dotted names, module names and external lookups; after every call results and full state (symbols, Get/Type of every pool name from every scope, copy independence) are compared; every call runs under recover; failing histories are shrunk.",
+   note="Trusted: the 120-line dictionary model. Accepted both ways: path lookup when the nearest binding is a non-module but an outer module exists; Set/DeleteGlobal under an external lookup that supplies the name; Addr's unaddressable errors."),
+ "C17": dict(
+   cat="exploration", ref="DESIGN.md section 3, C17",
+   technique="runtime structural monitor: the node set and parent relation computed by reflection (independent of astutil) is compared with what astutil.Walk presents; callback failure injected at every position",
+   text="A deterministic matrix of 33049 programs (every expression template in every expression hole, every statement template in every block hole; a node type or child field that never occurred fails as no-coverage), the repository's own scripts, and PRNG nestings; for each, Walk must return nil, present every reflected node after its parent, and with the callback failing at call k (all k for small programs) return that error without further calls.",
+   note="Trusted: astx reflection traversal. Synthetic nodes Walk fabricates are allowed; sibling order and multiplicity are not judged."),
+})
 ALL = ["C%02d" % i for i in range(1, 21)]
 
 def main():
